@@ -161,8 +161,9 @@ def World.WF (w : World) : Prop :=
 theorem getItem_ok {h h' : Heap} {v v' : PVal} {sp : SliceSpec} {r : Nat} {idx shp : List Nat}
     (hv : v.asView h = some (r, idx, shp)) (hg : getItem h v sp = .ok (h', v')) :
     ∃ pos shp', selIdx shp sp = .ok (pos, shp') ∧
-      ((sp.isView = true ∧ h' = h ∧ v' = .view r (pos.map fun p => idx.getD p 0) shp') ∨
-       (sp.isView = false ∧
+      ((shp' = [] ∧ h' = h) ∨
+       (shp' ≠ [] ∧ sp.isView = true ∧ h' = h ∧ v' = .view r (pos.map fun p => idx.getD p 0) shp') ∨
+       (shp' ≠ [] ∧ sp.isView = false ∧
         h' = (h.alloc ⟨(h.objs r).cplx, shp', h.read r (pos.map fun p => idx.getD p 0)⟩).1 ∧ v' = .arr h.next)) := by
   unfold getItem at hg
   rw [hv] at hg
@@ -171,29 +172,36 @@ theorem getItem_ok {h h' : Heap} {v v' : PVal} {sp : SliceSpec} {r : Nat} {idx s
   · cases hg
   · rename_i pos shp' hsel
     refine ⟨pos, shp', hsel, ?_⟩
-    by_cases hview : sp.isView = true
-    · simp only [hview, if_true] at hg
+    by_cases hz : shp' = []
+    · simp only [hz, if_true] at hg
       injection hg with hg
       injection hg with h1 h2
-      exact Or.inl ⟨hview, h1.symm, h2.symm⟩
-    · simp only [hview] at hg
-      injection hg with hg
-      injection hg with h1 h2
-      exact Or.inr ⟨by simpa using hview, h1.symm, h2.symm⟩
+      exact Or.inl ⟨hz, h1.symm⟩
+    · simp only [hz, if_false] at hg
+      by_cases hview : sp.isView = true
+      · simp only [hview, if_true] at hg
+        injection hg with hg
+        injection hg with h1 h2
+        exact Or.inr (Or.inl ⟨hz, hview, h1.symm, h2.symm⟩)
+      · simp only [hview] at hg
+        injection hg with hg
+        injection hg with h1 h2
+        exact Or.inr (Or.inr ⟨hz, by simpa using hview, h1.symm, h2.symm⟩)
 
 theorem prepSet_pos {h : Heap} {tc : Bool} {shp : List Nat} {sp : SliceSpec} {v : PVal} {pos pos' shp' : List Nat}
     {vals : List GI} (hsel : selIdx shp sp = .ok (pos, shp')) (hp : prepSet h tc shp sp v = .ok (pos', vals)) :
     pos' = pos := by
   unfold prepSet at hp
-  cases sp with
-  | intArr is =>
-    simp only [hsel] at hp
-    split at hp <;> cases hp <;> rfl
-  | basic s =>
-    simp only [hsel] at hp
-    split at hp <;> cases hp <;> rfl
-  | tuple ss =>
-    simp only [hsel] at hp
+  split at hp
+  · cases hp
+  · split at hp
+    · simp only [hsel] at hp
+      cases hp
+    · cases hp
+    · simp only [hsel] at hp
+      cases hp
+      rfl
+  · simp only [hsel] at hp
     split at hp <;> cases hp <;> rfl
 
 theorem setItem_ok {h h' : Heap} {t v : PVal} {sp : SliceSpec} {r : Nat} {idx shp pos shp' : List Nat}
@@ -220,6 +228,7 @@ theorem iadd_view_ok {h h' : Heap} {t ds : PVal} {res : IaddRes} {r : Nat} {idx 
     cases t with
     | none => simp [PVal.asView] at ht
     | sc c x => simp [PVal.asView] at ht
+    | npsc c x => simp [PVal.asView] at ht
     | arr r0 =>
       simp only [ht] at hi
       cases d <;> simp only at hi <;> repeat' split at hi
@@ -245,11 +254,12 @@ theorem Step.trans {N r : Nat} {T : List Nat} {w1 w2 w3 : World} (a : Step N r T
 structure Sel (w : World) (r : Nat) (sp : SliceSpec) (pos shp' : List Nat) : Prop where
   sel : selIdx (w.heap.objs r).shape sp = .ok (pos, shp')
   inb : ∀ p, p ∈ pos → p < (w.heap.objs r).data.length
+  nz : shp' ≠ []        -- the selection keeps at least one axis (otherwise numpy hands out a scalar)
 
 theorem Sel.step {N r : Nat} {T : List Nat} {w w' : World} {sp : SliceSpec} {pos shp' : List Nat}
     (hs : Sel w r sp pos shp') (st : Step N r T w w') : Sel w' r sp pos shp' := by
   obtain ⟨_, _, _, _, _, _, h4, h5, _⟩ := st
-  exact ⟨by rw [h5]; exact hs.sel, by rw [h4]; exact hs.inb⟩
+  exact ⟨by rw [h5]; exact hs.sel, by rw [h4]; exact hs.inb, hs.nz⟩
 
 theorem asView_arr_sel {w : World} {r : Nat} {sp : SliceSpec} {pos shp' : List Nat} (hs : Sel w r sp pos shp') :
     (pos.map fun p => (List.range (w.heap.objs r).data.length).getD p 0) = pos :=
@@ -284,7 +294,8 @@ theorem getField_slice_base {N : Nat} (f : Fld) (w w1 : World) (i r : Nat) (sp :
     rw [hs.sel] at hsel
     cases hsel
     rw [asView_arr_sel hs] at hcase
-    rcases hcase with ⟨_, h1, h2⟩ | ⟨_, h1, h2⟩
+    rcases hcase with ⟨hz, _⟩ | ⟨_, _, h1, h2⟩ | ⟨_, _, h1, h2⟩
+    · exact absurd hz hs.nz
     · subst h1
       exact ⟨Step.refl _ _ _ _, Or.inl h2⟩
     · exact ⟨⟨rfl, rfl, rfl, by rw [h1]; exact Frame.alloc _ _ _ _ _ hr hN⟩, Or.inr ⟨h2, _, h1⟩⟩
